@@ -278,13 +278,45 @@ Record response := {
 Record sample := { sm_code : Z; sm_err : bool }.
 Inductive shot := Returned (samples : list sample) | ShotPanic (reported_before : list sample).
 
+(* gun options that add branches to the response handling: httptrace {dump, trace}, answlog {enabled, filter},
+   debug-level logging (verboseLogging) *)
+Inductive answ_filter := AnswAll | AnswWarning | AnswError | AnswOther.
+Record gun_opts := { go_dump : bool; go_trace : bool; go_answlog : option answ_filter; go_debug : bool }.
+
 Record base_cfg := {
   bc_bound : bool;                (* Bind was called (the engine always does) *)
   bc_connect : option bool;       (* optional Connect hook and whether it succeeds; None for the http/http2 guns *)
-  bc_http2 : bool                 (* client wrapped in panicOnHTTP1Client *)
+  bc_http2 : bool;                (* client wrapped in panicOnHTTP1Client *)
+  bc_opts : gun_opts
 }.
 
 Definition conn_ok (c : conn) : bool := match c with ConnOk => true | _ => false end.
+
+(* httputil.DumpResponse(res, true) / verboseLogging(res) / answLogging(.., res): dereference res — a nil response panics *)
+Definition deref_response (res_present : bool) : outcome unit := if res_present then Done tt else Panicked.
+
+Definition answ_applies (f : answ_filter) (status : Z) : bool :=
+  match f with AnswAll => true | AnswWarning => 400 <=? status | AnswError => 500 <=? status | AnswOther => false end.
+
+(* the dump / trace / logging branches after Client.Do (BaseGun.Shoot; ScenarioGun.saveTrace + logging):
+     if DumpEnabled && res != nil { DumpResponse(res) }        trace timings: plain field reads
+     if err != nil { return }
+     if DebugLog { verboseLogging(res) };  if AnswLog.Enabled { per filter: answLogging(.., res) }
+   None of them touches the sample; each completes or panics. *)
+Definition side_branches (o : gun_opts) (r : response) : outcome unit :=
+  let has_res := conn_ok (rs_conn r) in
+  match (if go_dump o && has_res then deref_response has_res else Done tt) with
+  | Done _ =>
+      if negb has_res then Done tt
+      else match (if go_debug o then deref_response has_res else Done tt) with
+           | Done _ => match go_answlog o with
+                       | Some f => if answ_applies f (rs_status r) then deref_response has_res else Done tt
+                       | None => Done tt
+                       end
+           | x => x
+           end
+  | x => x
+  end.
 
 (* BaseGun.Shoot *)
 Definition base_shoot (c : base_cfg) (invalid_ammo : bool) (r : response) : shot :=
@@ -297,6 +329,9 @@ Definition base_shoot (c : base_cfg) (invalid_ammo : bool) (r : response) : shot
              (* documented fatal: the target is reached but does not negotiate HTTP/2 (ALPN alert or checkHTTP2):
                 panicOnHTTP1Client.Do panics inside Client.Do; the deferred Report still runs while unwinding *)
              ShotPanic [{| sm_code := 0; sm_err := false |}]
+           else if is_panic (side_branches (bc_opts c) r) then
+             (* a panic in a dump/logging branch: the deferred SetErr/Report still runs, then the panic goes on *)
+             ShotPanic [{| sm_code := 0; sm_err := negb (conn_ok (rs_conn r)) |}]
            else if negb (conn_ok (rs_conn r)) then
              Returned [{| sm_code := 0; sm_err := true |}]                (* deferred SetErr + Report *)
            else
@@ -306,6 +341,7 @@ Definition base_shoot (c : base_cfg) (invalid_ammo : bool) (r : response) : shot
 
 (* one scenario step as the gun sees it *)
 Record step_in := {
+  si_opts : gun_opts;             (* options of the gun (the same for every step of a run) *)
   si_pre_ok : bool;               (* preprocessor *)
   si_tmpl_ok : bool;              (* templater.Apply *)
   si_prep_ok : bool;              (* prepareRequest *)
@@ -327,6 +363,7 @@ Definition shoot_step (s : step_in) : step_out :=
   if negb (si_pre_ok s) then StepErr
   else if negb (si_tmpl_ok s) then StepErr
   else if negb (si_prep_ok s) then StepErr
+  else if is_panic (side_branches (si_opts s) (si_resp s)) then StepPanic
   else if negb (conn_ok (rs_conn (si_resp s))) then StepErr
   else if negb (rs_body_ok (si_resp s)) then StepErr
   else match run_pps (si_pps s) with
